@@ -396,7 +396,8 @@ pub fn gen_elem(w: &World, s: &Spec, d: &mut D, mode: Mode, body_mode: Mode, st:
         }
     });
     // a defaulted const must not precede a non-defaulted type parameter; the sort above ensures it
-    let where_clause = if !generics.is_empty() && d.ratio(1, 3) { Some(d.pick(&["u8: Copy", "Vec<u8>: Clone, String: Default,"]).to_string()) } else { None };
+    // (a where-clause needs no parameter list: `struct S where u8: Copy;`)
+    let where_clause = if d.ratio(1, 3) { Some(d.pick(&["u8: Copy", "Vec<u8>: Clone, String: Default,", "String: Clone", "i8: Copy,"]).to_string()) } else { None };
     let attrs = gen_attrset(w, Some(s), d, mode, st, false);
     let body = match s.tr {
         Trait::FromField => {
